@@ -1,4 +1,4 @@
-import TarsModel.Proofs.ServerConnRun
+import TarsModel.Proofs.ServerConnKick
 
 /-!
 # C12 — Graceful shutdown answers every request already received
@@ -54,11 +54,123 @@ def C12_full (cfg : Cfg) : Prop :=
     (s.spc = .returned true →
         ∀ (c : Nat) (k : Conn), s.conns[c]? = some k → k.rpc ≠ .backlog → k.srvClosed = true)
 
-/-! ## What holds for the code as it is -/
+/-! ## The current code: the pool is released after the connections have drained, and `CloseIdles`
+only wakes receivers (`pending/C12-fix-pool-release.patch`, `pending/C12-d16-closeidles-wake.patch`) -/
+
+/-- clauses 1 and 2 of `C12_full`: every request the server has read from a connection is executed
+and answered before the server closes that connection -/
+def C12_safety (cfg : Cfg) : Prop :=
+  ∀ (acts : List Action) (s : State), run cfg acts = some s →
+    (∀ (c : Nat) (k : Conn), s.conns[c]? = some k → k.srvClosed = true →
+        k.buf = [] ∧ ∀ q ∈ k.reqs, q.st = .done true) ∧
+    (∀ (c i : Nat) (k : Conn) (q : Req), s.conns[c]? = some k → k.reqs[i]? = some q → q.st.isDone = false →
+        (cfg.pool = none → ∃ a ∈ handlerActions c i, (step cfg s a).isSome = true) ∧
+        (cfg.pool ≠ none → s.pst = .live))
+
+/-- **Answered before close** (clause 1 of `C12_full`, at full strength): when `CloseIdles` leaves the
+closing to the receive loops, then for every pool configuration and every interleaving of accept loop,
+receive loops, handlers, pool and shutdown poller: once the server has closed a connection, no
+package that `conn.Read` returned is left in its receive buffer, and EVERY request handed to
+`handleConn` has been executed, its response written to the open connection and its handler
+finished. No atomicity hypothesis, no restriction to requests dispatched before the close. -/
+theorem C12_answered_before_close (cfg : Cfg) (hci : cfg.ci = .kickOnly) (acts : List Action) (s : State)
+    (hrun : run cfg acts = some s) (c : Nat) (k : Conn) (hk : s.conns[c]? = some k)
+    (hcl : k.srvClosed = true) : k.buf = [] ∧ ∀ q ∈ k.reqs, q.st = .done true := by
+  have hr := run_reachable hrun
+  have hI := ginv_reachable hr
+  have hK := kick_reachable hci hr c k hk
+  have hpc := hK.closedPc hcl
+  refine ⟨(hI.conns c k hk).bufNil (by simp [hpc]), ?_⟩
+  intro q hq
+  exact hI.safe (by rw [hci]; simp) c k hk hcl q hq (hK.allOpen q hq)
+
+/-- **Executed, without a pool**: for every variant and every interleaving, the handler of a request
+that `handleConn` has counted always has its next step enabled (goroutine per request: nothing can
+block it), so under a fair scheduler it runs to its end. -/
+theorem C12_handler_enabled (cfg : Cfg) (hpool : cfg.pool = none) (acts : List Action) (s : State)
+    (hrun : run cfg acts = some s) (c i : Nat) (k : Conn) (q : Req) (hk : s.conns[c]? = some k)
+    (hq : k.reqs[i]? = some q) (hnd : q.st.isDone = false) :
+    ∃ a ∈ handlerActions c i, (step cfg s a).isSome = true := by
+  cases hst : q.st with
+  | queued =>
+    exact ⟨.start c i, by simp [handlerActions], by simp [step, poolOn, hpool, updConn, hk, cStart, cSetSt, hq, hst]⟩
+  | handed =>
+    exfalso
+    exact nopool_never_handed cfg hpool (run_reachable hrun) c k hk q (mem_of_getElem? hq) hst
+  | running =>
+    exact ⟨.fin c i, by simp [handlerActions], by simp [step, updConn, hk, cFin, cSetSt, hq, hst]⟩
+  | finished =>
+    exact ⟨.write c i, by simp [handlerActions], by simp [step, updConn, hk, cWrite, cSetSt, hq, hst]⟩
+  | wrote ok =>
+    exact ⟨.dec c i, by simp [handlerActions], by simp [step, updConn, hk, cDec, hq, hst]⟩
+  | done ok => simp [hst, HSt.isDone] at hnd
+
+/-- **Executed, with a pool**: when `Handle` waits for all connection goroutines before
+`pool.Release()`, then for any pool size, any queue capacity, any behaviour of `CloseIdles` and every
+interleaving: as long as some request has been counted by `handleConn` and its handler has not
+finished, the pool's dispatcher is alive (`Release` has not even been called) — no queued handler is
+ever dropped. Together with C19 (the live pool executes every submitted job) this is clause 2 of
+`C12_full` for the pool. -/
+theorem C12_fixed_pool (cfg : Cfg) (hfix : cfg.releaseAfterDrain = true) (acts : List Action) (s : State)
+    (hrun : run cfg acts = some s) (c i : Nat) (k : Conn) (q : Req) (hk : s.conns[c]? = some k)
+    (hq : k.reqs[i]? = some q) (hnd : q.st.isDone = false) : s.pst = .live := by
+  have hI := ginv_reachable (run_reachable hrun)
+  have hki := hI.conns c k hk
+  have hpos : 0 < k.numInvoke := by
+    rw [hki.count]
+    exact List.countP_pos_iff.mpr ⟨q, mem_of_getElem? hq, by simp [notDone, hnd]⟩
+  cases hp : s.pst with
+  | live => rfl
+  | stopReq | stopping | stopped =>
+    exfalso
+    obtain ⟨_, hgone⟩ := hI.poolInv hfix (by rw [hp]; simp)
+    rcases hgone c k hk with h | h
+    · have := (hki.closedPc h).2.1; omega
+    · have := (hki.fresh (Or.inl h)).1
+      rw [this] at hq; simp at hq
+
+/-- **C12, safety part, for the repaired code**: clauses 1 and 2 of `C12_full` hold for every pool
+configuration and every interleaving. (Clauses 3 and 4 — notification and return — are
+`C12_notify` and `C12_returns`, which hold for connections in the connection table; see
+`C12_notify_unregistered_counterexample` for what is missing there.) -/
+theorem C12_repaired_safety (pool : Option (Nat × Nat)) : C12_safety (repaired pool) := by
+  intro acts s hrun
+  refine ⟨fun c k hk hcl => C12_answered_before_close _ rfl acts s hrun c k hk hcl, ?_⟩
+  intro c i k q hk hq hnd
+  exact ⟨fun hp => C12_handler_enabled _ hp acts s hrun c i k q hk hq hnd,
+         fun _ => C12_fixed_pool _ rfl acts s hrun c i k q hk hq hnd⟩
+
+/-- **The current tree is the repaired variant.** The extractor regenerates
+`Consts.srvHandleWaitsBeforeRelease` (calls of `Wait()` in `tcpHandler.Handle`) and
+`Consts.srvCloseIdlesCloses` (calls of `conn.conn.Close()` in `tcpHandler.CloseIdles`) from the
+source on every run; if either repair is reverted this theorem no longer builds. -/
+theorem C12_current_tree (pool : Option (Nat × Nat)) : treeCfg pool = repaired pool := by
+  simp [treeCfg, repaired, Consts.srvHandleWaitsBeforeRelease, Consts.srvCloseIdlesCloses]
+
+/-- hence the safety part of C12 holds for the model variant of the current tree -/
+theorem C12_current_tree_safety (pool : Option (Nat × Nat)) : C12_safety (treeCfg pool) := by
+  rw [C12_current_tree]; exact C12_repaired_safety pool
+
+/-- non-vacuity, and the D16 schedule under the repaired `CloseIdles`: the same connection with a
+stale idle stamp and a request just read; `CloseIdles` looks at it (it only wakes the receiver and
+reports "not all closed"); the request is dispatched, executed and answered; the receiver sees the
+wake-up, drains and closes; the client has the response, the close message and EOF; the next
+`CloseIdles` call finds the table empty and `Shutdown` returns. -/
+example : ∃ s, run (repaired none)
+    [.connect, .accept 0, .register 0, .stamp 0, .age 0, .send 0 7, .read 0 1,
+     .shutdownCall, .setClosed, .acceptExit, .onShutdownRet, .ciBegin, .ciVisit 0, .ciEnd,
+     .dispatch 0, .start 0 0, .fin 0 0, .write 0 0, .dec 0 0, .stamp 0, .readErr 0 false, .drainClose 0,
+     .recvRsp 0 0, .recvMsg 0, .recvEof 0, .ciBegin, .ciEnd] = some s ∧
+    s.spc = .returned true ∧
+    (s.conns.map fun k => (k.srvClosed, k.reqs.map (·.st), k.got, k.gotMsg, k.sawEof)) =
+      [(true, [.done true], [7], true, true)] := by
+  refine ⟨_, rfl, ?_, ?_⟩ <;> decide
+
+/-! ## The code as found, and what an atomic `CloseIdles` would have given -/
 
 /-- **Answered before close, for every request dispatched before the close** — for any pool
 configuration, provided `CloseIdles` loads `numInvoke` and closes in one atomic step (`ci = .atomic`;
-also for the kick-only repair). For every interleaving: once the server has closed a connection,
+the statement also covers the kick-only repair, for which `C12_answered_before_close` says more). For every interleaving: once the server has closed a connection,
 every request that `handleConn` counted while the connection was open has been executed, its
 response has been written to the open connection, and its handler has finished.
 What is missing for clause 1 of `C12_full`: requests that were read but not yet counted when an
@@ -69,34 +181,22 @@ theorem C12_safety_atomic_partial (cfg : Cfg) (hci : cfg.ci ≠ .asFound) (acts 
     (hcl : k.srvClosed = true) : ∀ q ∈ k.reqs, q.dispOpen = true → q.st = .done true :=
   (ginv_reachable (run_reachable hrun)).safe hci c k hk hcl
 
-/-- **C12 without a worker pool, `CloseIdles` atomic** (the partial theorem of DESIGN §6): for every
-interleaving, every request handed to `handleConn` (a) can always take its next handler step — it
-is executed under any fair scheduler — and (b) if it was handed over before the server closed the
-connection, it is `done true` (executed, response written to the open connection) once the connection
-is closed. Missing with respect to `C12_full`: see `C12_safety_atomic_partial`; the worker pool
-(`C12_pool_counterexample`). -/
+/-- **C12 without a worker pool, if the as-found `CloseIdles` were atomic** (the partial theorem of
+DESIGN §6, about the code before the D16 repair; for the current code it is superseded by
+`C12_answered_before_close`, which needs neither hypothesis): for every interleaving, every request
+handed to `handleConn` (a) can always take its next handler step and (b) if it was handed over
+before the server closed the connection, it is `done true` once the connection is closed. Missing
+with respect to `C12_full` for that code: requests read but not yet counted
+(`C12_undispatched_counterexample`), the real non-atomic `CloseIdles` (`C12_toctou_counterexample`),
+the worker pool (`C12_pool_counterexample`). -/
 theorem C12_nopool_partial (cfg : Cfg) (hpool : cfg.pool = none) (hci : cfg.ci = .atomic)
     (acts : List Action) (s : State) (hrun : run cfg acts = some s)
     (c : Nat) (k : Conn) (hk : s.conns[c]? = some k) :
     (∀ (i : Nat) (q : Req), k.reqs[i]? = some q → q.st.isDone = false →
         ∃ a ∈ handlerActions c i, (step cfg s a).isSome = true) ∧
-    (k.srvClosed = true → ∀ q ∈ k.reqs, q.dispOpen = true → q.st = .done true) := by
-  refine ⟨?_, fun hcl => C12_safety_atomic_partial cfg (by rw [hci]; simp) acts s hrun c k hk hcl⟩
-  intro i q hq hnd
-  cases hst : q.st with
-  | queued =>
-    exact ⟨.start c i, by simp [handlerActions], by simp [step, poolOn, hpool, updConn, hk, cStart, cSetSt, hq, hst]⟩
-  | handed =>
-    -- without a pool no request is ever handed to a worker; the step exists nevertheless only with a pool
-    exfalso
-    exact nopool_never_handed cfg hpool (run_reachable hrun) c k hk q (mem_of_getElem? hq) hst
-  | running =>
-    exact ⟨.fin c i, by simp [handlerActions], by simp [step, updConn, hk, cFin, cSetSt, hq, hst]⟩
-  | finished =>
-    exact ⟨.write c i, by simp [handlerActions], by simp [step, updConn, hk, cWrite, cSetSt, hq, hst]⟩
-  | wrote ok =>
-    exact ⟨.dec c i, by simp [handlerActions], by simp [step, updConn, hk, cDec, hq, hst]⟩
-  | done ok => simp [hst, HSt.isDone] at hnd
+    (k.srvClosed = true → ∀ q ∈ k.reqs, q.dispOpen = true → q.st = .done true) :=
+  ⟨fun i q hq hnd => C12_handler_enabled cfg hpool acts s hrun c i k q hk hq hnd,
+   fun hcl => C12_safety_atomic_partial cfg (by rw [hci]; simp) acts s hrun c k hk hcl⟩
 
 /-- non-vacuity of `C12_nopool_partial`: two pipelined requests, shutdown while both handlers run, an
 atomic `CloseIdles` pass that finds the connection busy, the receiver's drain-then-close: the
@@ -249,31 +349,8 @@ theorem C12_pool_not_full : ¬ C12_full poolCfg := by
   rw [hst] at this
   contradiction
 
-/-! ### the repair of D15: release the pool only after every connection goroutine has returned -/
-
-/-- **With `pending/C12-fix-pool-release.patch`** (`Handle` waits for all connection goroutines before
-`pool.Release()`), for any pool size, any queue capacity, any behaviour of `CloseIdles` and every
-interleaving: as long as some request has been counted by `handleConn` and its handler has not
-finished, the pool's dispatcher is alive (`Release` has not even been called) — no queued handler
-is ever dropped. Together with C19 (the live pool executes every submitted job) this is clause 2 of
-`C12_full` for the pool. -/
-theorem C12_fixed_pool (cfg : Cfg) (hfix : cfg.releaseAfterDrain = true) (acts : List Action) (s : State)
-    (hrun : run cfg acts = some s) (c i : Nat) (k : Conn) (q : Req) (hk : s.conns[c]? = some k)
-    (hq : k.reqs[i]? = some q) (hnd : q.st.isDone = false) : s.pst = .live := by
-  have hI := ginv_reachable (run_reachable hrun)
-  have hki := hI.conns c k hk
-  have hpos : 0 < k.numInvoke := by
-    rw [hki.count]
-    exact List.countP_pos_iff.mpr ⟨q, mem_of_getElem? hq, by simp [notDone, hnd]⟩
-  cases hp : s.pst with
-  | live => rfl
-  | stopReq | stopping | stopped =>
-    exfalso
-    obtain ⟨_, hgone⟩ := hI.poolInv hfix (by rw [hp]; simp)
-    rcases hgone c k hk with h | h
-    · have := (hki.closedPc h).2.1; omega
-    · have := (hki.fresh (Or.inl h)).1
-      rw [this] at hq; simp at hq
+/-! ### the repair of D15: release the pool only after every connection goroutine has returned
+(theorem `C12_fixed_pool` above) -/
 
 /-- the repaired variant with the same pool -/
 def poolFixedCfg : Cfg := { poolCfg with releaseAfterDrain := true }
@@ -298,16 +375,16 @@ example : ∃ s, run poolFixedCfg
       [(true, [1, 2, 3], true, true, [.done true, .done true, .done true])] := by
   refine ⟨_, rfl, ?_, ?_, ?_⟩ <;> decide
 
-/-- The extractor records in `Consts.srvHandleWaitsBeforeRelease` whether `tcpHandler.Handle` waits
-before `pool.Release()`; when it does, `C12_fixed_pool` is about the variant of the current tree. -/
-theorem C12_current_tree_pool (pool : Option (Nat × Nat)) (h : Consts.srvHandleWaitsBeforeRelease ≥ 1)
+/-- `C12_fixed_pool` for the model variant of the current tree (no hypothesis: it rests on
+`C12_current_tree`, which fails to build if `Handle` no longer waits before `Release()`). -/
+theorem C12_current_tree_pool (pool : Option (Nat × Nat))
     (acts : List Action) (s : State) (hrun : run (treeCfg pool) acts = some s) (c i : Nat) (k : Conn)
     (q : Req) (hk : s.conns[c]? = some k) (hq : k.reqs[i]? = some q) (hnd : q.st.isDone = false) :
     s.pst = .live :=
-  C12_fixed_pool (treeCfg pool) (by simp [treeCfg, h]) acts s hrun c i k q hk hq hnd
+  C12_fixed_pool (treeCfg pool) (by rw [C12_current_tree]; rfl) acts s hrun c i k q hk hq hnd
 
-/-! ## D16 — `CloseIdles` checks `numInvoke` and the idle stamp, then closes: not atomic, and the
-stamp is taken before the blocking `Read` -/
+/-! ## D16 — before the repair `CloseIdles` checked `numInvoke` and the idle stamp, then closed: not
+atomic, and the stamp is taken before the blocking `Read` (theorems about the `asFound` variant) -/
 
 /-- A connection that has been idle for two seconds (its receiver is blocked in `Read`, the stamp is
 old); a request arrives and `Read` returns it; `Shutdown` is called; `CloseIdles` loads
